@@ -494,10 +494,10 @@ pub fn suite_clirefuse(dir: &str, seed: u64, _thorough: bool, st: &mut Stats) {
     let hc = hex(&archive[archive.len().min(14 + u64::from_le_bytes(archive[6..14].try_into().unwrap()) as usize + 8)..][..64]);
     let mut cases: Vec<(String, String, String, String)> = vec![]; // (cmd, outkind, flag, archivekind)
     for cmd in ["clone", "compress"] {
-        for outkind in ["absent", "regular", "blockdev-small", "blockdev-big"] {
+        for outkind in ["absent", "regular", "regular-empty", "regular-long", "blockdev-small", "blockdev-big"] {
             for flag in ["none", "force", "seed-output", "verify", "verify-force"] {
                 for ak in ["valid", "invalid", "mismatch", "prefix-pin", "prefix-pin-63", "empty-pin", "match-pin"] {
-                    if cmd == "compress" && (flag == "seed-output" || flag.starts_with("verify") || ak != "valid" || outkind.starts_with("blockdev")) { continue; }
+                    if cmd == "compress" && (flag == "seed-output" || flag.starts_with("verify") || ak != "valid" || outkind.starts_with("blockdev") || outkind == "regular-long") { continue; }
                     if flag.starts_with("verify") && outkind == "blockdev-big" { continue; } // whole-device checksum: see DESIGN
                     cases.push((cmd.into(), outkind.into(), flag.into(), ak.into()));
                 }
@@ -511,7 +511,7 @@ pub fn suite_clirefuse(dir: &str, seed: u64, _thorough: bool, st: &mut Stats) {
     par_for(cases.len(), 12, |i, st, lines| {
         let (cmd, outkind, flag, ak) = &cases[i];
         let s = Scn::new("rf", i as u64);
-        let prior: Vec<u8> = match outkind.as_str() { "absent" => vec![], "blockdev-small" => vec![0x11; 100], "blockdev-big" => vec![0x22; src.len() + 50], _ => b"precious existing content".to_vec() };
+        let prior: Vec<u8> = match outkind.as_str() { "absent" => vec![], "blockdev-small" => vec![0x11; 100], "blockdev-big" => vec![0x22; src.len() + 50], "regular-empty" => vec![], "regular-long" => vec![0x33; src.len() + 777], _ => b"precious existing content".to_vec() };
         if outkind != "absent" { s.write("out.bin", &prior); }
         let mut args: Vec<String> = vec![cmd.clone()];
         let mut env: Vec<(&str, &str)> = vec![];
@@ -565,6 +565,9 @@ pub fn suite_clirefuse(dir: &str, seed: u64, _thorough: bool, st: &mut Stats) {
             (Some(_), true) => "modified",
             (Some(_), false) => "created",
         };
+        if cmd == "clone" && code == 0 && !outkind.starts_with("blockdev") && now.as_deref() != Some(&src[..]) {
+            st.violation("C01", &format!("cmd {} {} {} {}: the clone exits 0 but the output is not exactly the source ({} bytes, source {})", cmd, outkind, flag, ak, now.as_ref().map(|d| d.len()).unwrap_or(0), src.len()), &line);
+        }
         let extra: Vec<&String> = after.iter().filter(|f| !before.contains(f) && f.as_str() != "out.bin").collect();
         if refused {
             if code == 0 { st.violation("C14", &format!("{}: operation should be refused but exit status is 0", line), &line); }
